@@ -163,7 +163,7 @@ var kC04 = run.NewKind("c04.switch", func(c *run.Ctx, t c04Case) *run.Fail {
 		for i, in := range t.Inputs {
 			tr := withSwitches(m&(1<<11), func() run.Trace { return run.RunCode(code, in.V, nil, defBudget, 2000) })
 			c.AddEvals(1)
-			diff, partial := run.SameTrace(baseTr[i], tr, run.DiffOpt{InternalMsgEq: true})
+			diff, partial := run.SameTrace(baseTr[i], tr, run.DiffOpt{InternalMsgEq: true, InternalKinds: true})
 			if partial {
 				c.Inconclusive("budget-prefix-only")
 			}
